@@ -71,11 +71,18 @@ def handler_class(version: int):
     return EZSP._BY_VERSION[version]
 
 
+class RawWire(bytes):
+    """A field the reference NCP encodes itself (layout taken from the EZSP reference, not from bellows' struct definitions)."""
+
+
 def encode_values(schema, values) -> bytes:
     """Serialise a value list for a response / callback schema (dict or struct class)."""
     if isinstance(schema, dict):
         out = b""
         for (name, ty), v in zip(schema.items(), values):
+            if isinstance(v, RawWire):
+                out += bytes(v)
+                continue
             out += ty(v).serialize() if not isinstance(v, ty) else v.serialize()
         return out
     if inspect.isclass(schema):
